@@ -1,5 +1,5 @@
 From Coq Require Import List String Ascii Bool NArith ZArith Lia.
-From Qryn Require Import model.GoFmt proofs.GoFmtProofs model.GoFmtInt proofs.GoFmtIntProofs.
+From Qryn Require Import model.SqlSites model.GoFmt proofs.GoFmtProofs model.GoFmtInt proofs.GoFmtIntProofs.
 From Qryn Require Import model.GoFmtIdx.
 Import ListNotations.
 Open Scope string_scope.
@@ -22,6 +22,9 @@ Qed.
 Lemma bracket_is_spec : forall v, Ascii.eqb v "[" = true -> spec_byte v = true.
 Proof. intros v H. apply Ascii.eqb_eq in H. subst. reflexivity. Qed.
 
+Lemma zero_is_spec : forall v, Ascii.eqb v "0" = true -> spec_byte v = true.
+Proof. intros v H. apply Ascii.eqb_eq in H. subst. reflexivity. Qed.
+
 Lemma go3_refines_fmt_go2 : forall f all k o, fmt_go2 f (skipn k all) = Some o -> go3 all f MText k false = Some o.
 Proof.
   fix IH 1. intros f all k o H. destruct f as [|c r]; [cbn in *; exact H|].
@@ -29,6 +32,8 @@ Proof.
   - destruct r as [|v r']; [cbn in *; exact H|]. cbn [go3]. unfold outside_verb.
     destruct (Ascii.eqb v "[") eqn:Eb.
     { rewrite (bracket_is_spec v Eb) in H. cbn in H. discriminate. }
+    destruct (Ascii.eqb v "0") eqn:Ez.
+    { rewrite (zero_is_spec v Ez) in H. cbn in H. discriminate. }
     destruct (spec_byte v || other_notation v || (128 <=? N_of_ascii v)%N); [discriminate|].
     destruct (is_pct v).
     + destruct (fmt_go2 r' (skipn k all)) as [o'|] eqn:E; [|discriminate]. rewrite (IH r' all k o' E). exact H.
@@ -140,6 +145,44 @@ Proof.
   rewrite (go3_constant_format_idx ops (t2 :: ts2) r i Hts) by (try exact Hr; cbn in Hl |- *; lia). reflexivity.
 Qed.
 
+(* ---- zero padding: %0<w>d of an integer is a text over "-0123456789" for every width and every integer *)
+Lemma over_app : forall al a b, SqlSites.over al a = true -> SqlSites.over al b = true -> SqlSites.over al (a ++ b) = true.
+Proof.
+  intros al a b Ha Hb. unfold SqlSites.over in *. induction a as [|c r IH]; cbn in *; [exact Hb|].
+  apply andb_true_iff in Ha. destruct Ha as [Hc Hr]. rewrite Hc, (IH Hr). reflexivity.
+Qed.
+
+Lemma zeros_digits : forall n, SqlSites.over dec_alphabet (zeros n) = true.
+Proof. induction n as [|n IH]; [reflexivity|]. cbn [zeros]. change (SqlSites.over dec_alphabet (String "0" (zeros n))) with (true && SqlSites.over dec_alphabet (zeros n)). rewrite IH. reflexivity. Qed.
+
+Lemma pad0_over_dec_alphabet : forall w z, SqlSites.over dec_alphabet (pad0 w z) = true.
+Proof.
+  intros w z. unfold pad0. destruct (z <? 0)%Z.
+  - change (true && SqlSites.over dec_alphabet (zeros (w - 1 - String.length (dec (Z.abs z))) ++ dec (Z.abs z)) = true).
+    cbn [andb]. apply over_app; [apply zeros_digits|apply dec_over_dec_alphabet].
+  - apply over_app; [apply zeros_digits|apply dec_over_dec_alphabet].
+Qed.
+
+(* the directive in a constant format: text, %0<w>d (w one digit, not 0), text, over one integer *)
+Lemma go3_zero_padded : forall pre post ty z w, pct_free pre = true -> pct_free post = true -> 1 <= w <= 9 ->
+  fmt_go3 (pre ++ String "%" (String "0" (String (idx_digit w) (String "d" post)))) [OInt ty z] = Some (pre ++ pad0 w z ++ post)
+  /\ SqlSites.over dec_alphabet (pad0 w z) = true.
+Proof.
+  intros pre post ty z w Hpre Hpost Hw. split; [|apply pad0_over_dec_alphabet].
+  unfold fmt_go3. rewrite go3_text by exact Hpre.
+  assert (Hd : digit_of (idx_digit w) = Some w).
+  { do 10 (destruct w as [|w]; [try lia; reflexivity|]). lia. }
+  assert (Hz : Ascii.eqb (idx_digit w) "0" = false).
+  { do 10 (destruct w as [|w]; [try lia; reflexivity|]). lia. }
+  cbn [go3]. change (is_pct "%") with true. cbv iota.
+  change (Ascii.eqb "0" "[") with false. cbv iota. change (Ascii.eqb "0" "0") with true. cbv iota.
+  rewrite Hz, Hd. change (digit_of "d") with (@None nat). cbv iota. change (Ascii.eqb "d" "d") with true. cbv iota.
+  cbn [padded_at nth_error].
+  rewrite (go3_refines_fmt_go2 post [OInt ty z] 1 post).
+  - reflexivity.
+  - cbn [skipn]. rewrite fmt2_verb_free_text by exact Hpost. reflexivity.
+Qed.
+
 (* the json parser planner's format (planner_parser_json.go), with a quoted path that holds a quote and a percent sign: every
    occurrence of %[1]s / %[2]s is the operand, whatever its bytes *)
 Example fmt3_examples :
@@ -148,5 +191,7 @@ Example fmt3_examples :
   fmt_go3 "intDiv(timestamp_ns, %d) * %[1]d" [OInt "int64" 15000000000] = Some "intDiv(timestamp_ns, 15000000000) * 15000000000" /\
   fmt_go3 "%[3]d|%[0]s|%[1]d %s" [OInt "int" 1; OStr "b"] = Some "%!d(BADINDEX)|%!s(BADINDEX)|1 b" /\
   mkformat3 [OStr "x"; OInt "int" 5] ["a("; ", "; ")"] [2; 1] = "a(%[2]d, %[1]s)" /\
-  idx_ok [OStr "x"; OInt "int" 5] 2 = true.
+  idx_ok [OStr "x"; OInt "int" 5] 2 = true /\
+  fmt_go3 "%d.%09d" [OInt "int64" 1700000000; OInt "int64" 5] = Some "1700000000.000000005" /\
+  pad0 9 (-5) = "-00000005" /\ pad0 3 12345 = "12345" /\ pad0 0 0 = "0".
 Proof. repeat split; vm_compute; reflexivity. Qed.
